@@ -165,25 +165,65 @@ def _attr_holds_own_class(ctx, f: Func, attr: str) -> bool:
     return False
 
 
-def _recursion_guard(f: Func) -> Optional[str]:
+def _local_helpers(ctx, f: Func) -> List[Func]:
+    """Functions called from f that are resolved (closures, methods) — one level, enough for enter()/leave() helpers."""
+    out = []
+    for site in ctx.cg.sites_of.get(id(f), []):
+        if site.kind == "resolved":
+            for t in site.targets:
+                if t is not f and t not in out:
+                    out.append(t)
+    return out
+
+
+def _guard_containers(ctx, f: Func) -> dict:
+    """container name -> (description, function holding the test).  A guard container is a plain name that is
+    (a) tested by membership (`x in C`) or scanned for identity (`for a in C: if a is x`) and (b) grown
+    (`C.add/append(...)`, `C[k] = ...`) — both inside f or a helper f calls."""
+    found = {}
+    scope = [f] + _local_helpers(ctx, f)
+    grown = set()
+    for h in scope:
+        for n in h.own_nodes():
+            if isinstance(n, ast.Call) and isinstance(n.func, ast.Attribute) and n.func.attr in ("add", "append") and isinstance(n.func.value, ast.Name):
+                grown.add(n.func.value.id)
+            if isinstance(n, ast.Assign) and any(isinstance(t, ast.Subscript) and isinstance(t.value, ast.Name) for t in n.targets):
+                grown.update(t.value.id for t in n.targets if isinstance(t, ast.Subscript) and isinstance(t.value, ast.Name))
+    for h in scope:
+        for n in h.own_nodes():
+            if isinstance(n, ast.Compare) and isinstance(n.ops[0], (ast.In, ast.NotIn)) and isinstance(n.comparators[0], ast.Name) and n.comparators[0].id in grown:
+                found.setdefault(n.comparators[0].id, (f"membership test {norm(n)} in {h.name}", h))
+            if isinstance(n, ast.For) and isinstance(n.iter, ast.Name) and n.iter.id in grown and isinstance(n.target, ast.Name):
+                tv = n.target.id
+                for m in ast.walk(n):
+                    if isinstance(m, ast.Compare) and isinstance(m.ops[0], ast.Is) and (norm(m.left) == tv or norm(m.comparators[0]) == tv):
+                        found.setdefault(n.iter.id, (f"identity scan of {n.iter.id} in {h.name}", h))
+    return found
+
+
+def _recursion_guard(f: Func, ctx=None) -> Optional[str]:
     """visited-set / depth-parameter idioms."""
     params = f.params()
     for p in params:
         if any(w in p.lower() for w in ("seen", "visited", "depth", "stack", "memo")):
             return f"parameter {p}"
-    g: Optional[Func] = f.parent
-    # closure over a visited set defined in the parent
+    if ctx is not None:
+        gc = _guard_containers(ctx, f)
+        if gc:
+            return "; ".join(v[0] for v in gc.values())
     for n in f.own_nodes():
-        if isinstance(n, ast.Compare) and isinstance(n.ops[0], (ast.In, ast.NotIn)) and any(w in norm(n.comparators[0]).lower() for w in ("seen", "visited", "stack")):
+        if isinstance(n, ast.Compare) and isinstance(n.ops[0], (ast.In, ast.NotIn)) and any(w in norm(n.comparators[0]).lower() for w in ("seen", "visited", "stack", "path", "ancestors", "active", "parents")):
             return f"membership test {norm(n)}"
     d = _has_depth_guard(f)
     return d
 
 
-def rule_data_recursion_guarded(ctx, rep, rid: str, only: Optional[Set[str]] = None, floor: int = 1) -> None:
+def rule_data_recursion_guarded(ctx, rep, rid: str, only: Optional[Set[str]] = None, floor: int = 1, only_pred=None) -> None:
     rep.rule(rid, "every self-recursive runtime helper whose depth is controlled by script or embedder data (prototype chains, nested/cyclic containers) has a visited set or depth guard", floor=floor)
     for f, calls in self_recursive(ctx):
         if only is not None and f.qual not in only:
+            continue
+        if only_pred is not None and not only_pred(f.qual):
             continue
         key = f"{f.qual}:self-recursion"
         if f.qual in BOUNDED_RECURSION:
@@ -192,8 +232,89 @@ def rule_data_recursion_guarded(ctx, rep, rid: str, only: Optional[Set[str]] = N
             if okc:
                 rep.ok(rid, key, {"bounded_because": BOUNDED_RECURSION[f.qual]})
                 continue
-        g = _recursion_guard(f)
+        g = _recursion_guard(f, ctx)
         if g:
             rep.ok(rid, key, {"guard": g})
         else:
             rep.bad(rid, key, f"{f.qual} recurses on script/embedder-controlled structure ({short(calls[0], 50)}) without a visited set or depth guard: cycles or long chains overflow the host stack", f"{f.module.rel}:{calls[0].lineno}")
+
+
+def rule_cycle_guard_is_path_scoped(ctx, rep, rid: str, only: Set[str]) -> None:
+    """A cycle guard that substitutes a placeholder for an already-seen container must forget the container
+    once its children are done (an on-path set).  A visited-anywhere set also drops containers that are merely
+    shared (reachable twice without a cycle)."""
+    rep.rule(rid, "a converter that replaces already-seen containers by a placeholder keeps its seen-set scoped to the current path (entries are removed after the children are converted, or a copy is passed down)", floor=1)
+    n = 0
+    for f, calls in self_recursive(ctx):
+        if f.qual not in only:
+            continue
+        n += 1
+        key = f"{f.qual}:seen-set-scope"
+        seen_names = set()
+        for x in f.own_nodes():
+            if isinstance(x, ast.Compare) and isinstance(x.ops[0], ast.In) and isinstance(x.comparators[0], ast.Name):
+                # `id(v) in seen` / `key in seen` guarding a return of a placeholder
+                p = getattr(x, "_parent", None)
+                if isinstance(p, ast.If) and any(isinstance(s, ast.Return) for s in p.body):
+                    seen_names.add(x.comparators[0].id)
+        if not seen_names:
+            rep.ok(rid, key, {"note": "no placeholder-returning seen-set"})
+            continue
+        for sn in seen_names:
+            adds = [x for x in f.own_nodes() if isinstance(x, ast.Call) and norm(x.func) == f"{sn}.add"]
+            removes = [x for x in f.own_nodes() if isinstance(x, ast.Call) and norm(x.func) in (f"{sn}.discard", f"{sn}.remove", f"{sn}.pop")]
+            copies = [c for c in calls if any(isinstance(a, ast.BinOp) and sn in norm(a) for a in list(c.args) + [k.value for k in c.keywords])]
+            raises_on_seen = False
+            for x in f.own_nodes():
+                if isinstance(x, ast.If) and isinstance(x.test, ast.Compare) and sn in norm(x.test) and any(isinstance(s, ast.Raise) for s in x.body):
+                    raises_on_seen = True
+            if adds and not removes and not copies and not raises_on_seen:
+                rep.bad(rid, key, f"{f.qual} adds every container to `{sn}` and never removes it, while an already-seen container is replaced by a placeholder: a container that is merely referenced twice (no cycle) is silently dropped from the second occurrence on", f"{f.module.rel}:{adds[0].lineno}")
+            else:
+                rep.ok(rid, key)
+    if n == 0:
+        rep.ok(rid, "no-self-recursive-converter")
+
+
+def rule_guard_state_is_per_call(ctx, rep, rid: str, only: Set[str]) -> None:
+    """The container a cycle guard tests must be created by the call that does the conversion (a parameter, or a
+    local of the native that starts it) — or be cleaned up in `finally`.  A guard container that lives in the
+    factory scope survives an exception thrown half-way and poisons later calls."""
+    rep.rule(rid, "the seen/path container of a cycle guard is created per conversion (parameter or local of the entry native) or its entries are removed in a finally block", floor=1)
+    n = 0
+    natives = ctx.cg.natives
+    for f, calls in self_recursive(ctx):
+        if not any(o in f.qual for o in only):
+            continue
+        n += 1
+        key = f"{f.qual}:guard-state"
+        guards = {g: v for g, v in _guard_containers(ctx, f).items() if g not in f.params()}
+        if not guards:
+            rep.ok(rid, key, {"note": "no closure guard container"})
+            continue
+        bad = None
+        for gname, (desc, holder) in guards.items():
+            owner = None
+            h = holder
+            while h is not None:
+                if any(isinstance(x, (ast.Assign, ast.AnnAssign)) and any(isinstance(t, ast.Name) and t.id == gname for t in (x.targets if isinstance(x, ast.Assign) else [x.target])) for x in h.own_nodes()):
+                    owner = h
+                    break
+                h = h.parent
+            if owner is None or owner is f or owner is holder and holder is f:
+                continue
+            if id(owner) in natives:
+                continue  # created by the entry native: one container per conversion
+            removes_in_finally = False
+            for hh in [f] + _local_helpers(ctx, f):
+                for x in hh.own_nodes():
+                    if isinstance(x, ast.Try) and x.finalbody and any(gname in norm(st) for st in x.finalbody):
+                        removes_in_finally = True
+            if not removes_in_finally:
+                bad = (gname, owner)
+        if bad:
+            rep.bad(rid, key, f"{f.qual} keeps its cycle-guard container `{bad[0]}` in {bad[1].qual}, which outlives a single conversion, and never removes entries in a finally block: after a conversion that throws (e.g. on a cycle) the entries stay and later acyclic values are rejected", f.loc)
+        else:
+            rep.ok(rid, key, {"containers": sorted(guards)})
+    if n == 0:
+        rep.ok(rid, "no-self-recursive-converter")
